@@ -161,6 +161,7 @@ type Contract struct {
 	CallAsserts map[string][]*Clause // obligations stated at a call site, over the caller's variables
 	PostAssumes map[string][]*Clause // assumptions in force right after a call returns
 	CallAssumes map[string][]*Clause // assumptions stated at a call site (listed in the evidence)
+	Lemmas   []*Clause // pure statements over the parameters (universally quantified: the preconditions are NOT assumed), proved at function entry
 	Defs     []*Clause // definitional axioms of uninterpreted spec functions (primitive recursion over the entry memory), function-scoped
 	AssumeCalls map[string]string // callee -> reason: its preconditions are not checked at calls from this function (listed as assumptions)
 	GhostParams []string // ghost parameters: universally quantified in the callee's proof, supplied by callers with 'callghost'
@@ -502,6 +503,19 @@ func (cs *ContractSet) parseClause(body, pos, pkg string, cur **Contract) error 
 		}
 		name := strings.TrimSpace(rest[:j])
 		c.PostAssumes[name] = append(c.PostAssumes[name], &Clause{Kind: "postassume", E: e, Text: strings.TrimSpace(rest[j+1:]), Pos: pos})
+	case "lemma":
+		// lemma[props] name: expr  -- valid for every value of the parameters; the function body and its requires play no part
+		props, r := splitProps(rest)
+		j := strings.Index(r, ":")
+		if j < 0 {
+			return fmt.Errorf("lemma needs 'name: expr'")
+		}
+		e, err := parseExpr(strings.TrimSpace(r[j+1:]), pos)
+		if err != nil {
+			return err
+		}
+		c.Lemmas = append(c.Lemmas, &Clause{Kind: "lemma:" + strings.TrimSpace(r[:j]), Props: props, E: e, Text: strings.TrimSpace(r[j+1:]), Pos: pos})
+		cs.NClause++
 	case "define":
 		// define <expr>: a defining equation of an uninterpreted spec function, in force in this function's proof only
 		e, err := parseExpr(rest, pos)
